@@ -31,6 +31,10 @@ import (
 	"errors"
 	"fmt"
 	"io"
+	"regexp"
+	"runtime"
+	"strconv"
+	"strings"
 	"sync"
 	"sync/atomic"
 	"testing"
@@ -39,6 +43,7 @@ import (
 	"pgregory.net/rapid"
 
 	"tunnox-core/internal/client/tunnel"
+	"tunnox-core/internal/stream/transform"
 	"tunnox-core/internal/utils/iocopy"
 	"tunnox-core/verif/vkit"
 )
@@ -79,6 +84,53 @@ type TCPCase struct {
 	// (NewTunnel / Start -> runDataCopy), end A being its LocalConn and end B its TunnelRWC
 	// built with iocopy.NewReadWriteCloser as mapping.BaseMappingHandler does.
 	ViaTunnel bool `json:"via_tunnel,omitempty"`
+	// Limit: BandwidthLimit (bytes/s) of the transformer handed to Bidirectional, built with
+	// transform.NewTransformer exactly as client.handleTCPTargetTunnel does (0: none)
+	Limit int64 `json:"bandwidth_limit,omitempty"`
+}
+
+// recConn is a relay end that records the read deadlines the relay sets on it.
+type recConn struct {
+	*vkit.BufConn
+	mu       sync.Mutex
+	pending  time.Time // the read deadline currently armed (zero: none)
+	setAt    time.Time // when it was armed
+	setCalls int
+	// closedByLimitedWriter: Close was called from the rate-limited writer's Close, i.e. the
+	// relay's "close the wrapped writer to flush it" fully closed this end
+	closedByLimitedWriter atomic.Bool
+}
+
+func (r *recConn) Close() error {
+	if !r.BufConn.IsClosed() {
+		var pcs [24]uintptr
+		n := runtime.Callers(2, pcs[:])
+		fr := runtime.CallersFrames(pcs[:n])
+		for {
+			f, more := fr.Next()
+			if strings.Contains(f.Function, "transform.(*rateLimitedWriter).Close") {
+				r.closedByLimitedWriter.Store(true)
+			}
+			if !more {
+				break
+			}
+		}
+	}
+	return r.BufConn.Close()
+}
+
+func (r *recConn) SetReadDeadline(t time.Time) error {
+	r.mu.Lock()
+	r.pending, r.setAt = t, time.Now()
+	r.setCalls++
+	r.mu.Unlock()
+	return r.BufConn.SetReadDeadline(t)
+}
+func (r *recConn) SetDeadline(t time.Time) error { return r.SetReadDeadline(t) }
+func (r *recConn) armed() (time.Time, time.Time) {
+	r.mu.Lock()
+	defer r.mu.Unlock()
+	return r.pending, r.setAt
 }
 
 // the client's tunnel manager (one per process) for ViaTunnel cases
@@ -194,7 +246,46 @@ func startCollector(h *hub, c *vkit.BufConn) *collector {
 	return col
 }
 
-func runTCP(c *TCPCase) (fail *failure, class string, nt bool, sig string) {
+// tcpObs: what a failing run looked like from outside (for root-cause keys).
+type tcpObs struct {
+	errs          [2]error // Result errors, when the relay returned
+	bClosedEarly  bool     // end B was closed by the rate-limited writer's Close (when A->B finished)
+	returnedEarly bool
+}
+
+var burstMsg = regexp.MustCompile(`Wait\(n=(\d+)\) exceeds limiter's burst`)
+
+// runTCP runs the case; failures of bandwidth-limited runs get the key of their root cause
+// in the rate-limiting transformer (internal/stream/transform), which is what the
+// target-side relay (client.handleTCPTargetTunnel) is configured with.
+func runTCP(c *TCPCase) (*failure, string, bool, string) {
+	var obs tcpObs
+	f, class, nt, sig := runTCPInner(c, &obs)
+	if f == nil || c.Limit <= 0 {
+		return f, class, nt, sig
+	}
+	for _, e := range obs.errs {
+		if e == nil {
+			continue
+		}
+		if mm := burstMsg.FindStringSubmatch(e.Error()); mm != nil {
+			n, _ := strconv.ParseInt(mm[1], 10, 64)
+			rel := "within"
+			if n > 2*c.Limit {
+				rel = "above"
+			}
+			return &failure{key: "C12/tcp/bandwidth-limit/one-read-exceeds-limiter-burst/chunk-" + rel + "-2x-limit",
+				detail: fmt.Sprintf("BandwidthLimit=%d: a %d-byte chunk (one Read of the 32 KiB copy buffer) made the limiter fail (%v); the direction ended there [%s: %s]", c.Limit, n, e, f.key, f.detail)}, "", false, ""
+		}
+	}
+	if obs.bClosedEarly {
+		return &failure{key: "C12/tcp/bandwidth-limit/end-of-A-to-B-closes-end-B",
+			detail: fmt.Sprintf("BandwidthLimit=%d: when A->B finished the relay CLOSED its end B (the rate-limited writer's Close closes its target) while B->A was still in use [%s: %s]", c.Limit, f.key, f.detail), timing: false}, "", false, ""
+	}
+	return f, class, nt, sig
+}
+
+func runTCPInner(c *TCPCase, obs *tcpObs) (fail *failure, class string, nt bool, sig string) {
 	baseline, _ := relayGoroutines()
 	appA, rA := vkit.NewBufConnPair("10.1.0.1:40001", "10.1.0.2:7001")
 	rB, appB := vkit.NewBufConnPair("10.2.0.2:7002", "10.2.0.1:40002")
@@ -210,6 +301,9 @@ func runTCP(c *TCPCase) (fail *failure, class string, nt bool, sig string) {
 	rA.EOFWithData.Store(c.EOFWithDataA)
 	rB.EOFWithData.Store(c.EOFWithDataB)
 	app := [2]*vkit.BufConn{appA, appB}
+	// what the relay is given: the same ends, recording SetReadDeadline
+	cA, cB := &recConn{BufConn: rA}, &recConn{BufConn: rB}
+	relEnd := [2]*recConn{cA, cB}
 	noCW := [2]bool{c.NoCWA, c.NoCWB}
 	seed := [2]uint64{c.SeedA, c.SeedB}
 
@@ -225,11 +319,11 @@ func runTCP(c *TCPCase) (fail *failure, class string, nt bool, sig string) {
 	start := func() {
 		started = true
 		if c.ViaTunnel {
-			rwc, _ := iocopy.NewReadWriteCloser(rB, rB, rB.Close)
+			rwc, _ := iocopy.NewReadWriteCloser(cB, cB, cB.Close)
 			var tun *tunnel.Tunnel
 			tun = tunnel.NewTunnel(&tunnel.TunnelConfig{
 				ID: fmt.Sprintf("c12-%d", tunnelSeq.Add(1)), MappingID: "c12", Role: tunnel.TunnelRoleListen, Protocol: "tcp",
-				LocalConn: rA, TunnelRWC: rwc, Manager: tunnelManager(),
+				LocalConn: cA, TunnelRWC: rwc, Manager: tunnelManager(),
 				OnClosed: func(tunnel.CloseReason, error) {
 					st := tun.GetStats()
 					h.do(func() { tunStats = st; onClosedCalls++; returned = true })
@@ -242,15 +336,28 @@ func runTCP(c *TCPCase) (fail *failure, class string, nt bool, sig string) {
 			return
 		}
 		go func() {
-			r := iocopy.Bidirectional(rA, rB, &iocopy.Options{LogPrefix: "c12", OnComplete: func(s, r int64, err error) {
+			opts := &iocopy.Options{LogPrefix: "c12", OnComplete: func(s, r int64, err error) {
 				h.do(func() { completions++; cbSent, cbRecv = s, r })
-			}})
+			}}
+			if c.Limit > 0 {
+				opts.Transformer, _ = transform.NewTransformer(&transform.TransformConfig{BandwidthLimit: c.Limit})
+			}
+			r := iocopy.Bidirectional(cA, cB, opts)
 			h.do(func() { res = r; returned = true })
 		}()
 	}
+	var m *tcpModel
 	defer func() {
 		if !started {
 			start()
+		}
+		if fail != nil && m != nil {
+			obs.bClosedEarly = cB.closedByLimitedWriter.Load()
+			h.do(func() {
+				if res != nil && !c.ViaTunnel {
+					obs.errs = [2]error{res.SendError, res.ReceiveError}
+				}
+			})
 		}
 		// nothing of this case may survive it: closing all four ends makes every relay
 		// goroutine and every collector fall out of its Read/Write.
@@ -260,7 +367,7 @@ func runTCP(c *TCPCase) (fail *failure, class string, nt bool, sig string) {
 		h.wait(bound(), func() bool { return col[0].done && col[1].done && returned })
 	}()
 
-	m := newTCPModel(c)
+	m = newTCPModel(c)
 	B := bound()
 	halfCloseThenReverse := 0 // bytes delivered in the reverse direction after a propagated half-close
 	var halfClosedDir [2]bool // direction ended by a clean half-close/close while the reverse was alive
@@ -469,11 +576,23 @@ func runTCP(c *TCPCase) (fail *failure, class string, nt bool, sig string) {
 				pendSettle[x] = true
 				continue
 			}
+			sendStart := time.Now()
 			if f := settle(x, wasClean); f != nil {
 				return f, "", false, ""
 			}
 			if wasClean && halfClosedDir[1-x] && m.clean {
 				halfCloseThenReverse += st.N
+			}
+			// the other direction has finished, this one just carried bytes: a read deadline that
+			// is armed on this direction's source and was not set again since the bytes passed is
+			// an absolute cut-off for a direction that is alive (an idle timeout would be re-armed)
+			if m.clean && m.d[1-x].ended && !m.d[x].ended {
+				if dl, at := relEnd[x].armed(); !dl.IsZero() && at.Before(sendStart) {
+					return failf("C12/tcp/unrefreshed-read-deadline-on-active-direction",
+						"direction %s finished (%s); %d more bytes then went %s, yet the relay's read deadline on that direction's source end is still the one armed before (expires %v after it was set, %v from now): the reverse direction will be cut while it is alive",
+						dirName(1-x), m.d[1-x].endKind, st.N, dirName(x), dl.Sub(at).Round(time.Millisecond), time.Until(dl).Round(time.Millisecond)), "", false, ""
+				}
+				vkit.Class("tcp-feat:no-stale-read-deadline-after-half-close")
 			}
 		case "sendBoth":
 			if m.hc[0] || m.closed[0] || m.hc[1] || m.closed[1] || st.N <= 0 || st.M <= 0 {
@@ -669,6 +788,10 @@ func runTCP(c *TCPCase) (fail *failure, class string, nt bool, sig string) {
 	if concurrent {
 		vkit.Class("tcp-feat:both-directions-at-once")
 	}
+	if c.Limit > 0 {
+		vkit.Class(fmt.Sprintf("tcp-feat:bandwidth-limit=%d", c.Limit))
+		class = "limited+" + class
+	}
 	if c.ViaTunnel {
 		vkit.Class("tcp-feat:run-by-client-tunnel.Tunnel")
 		class = "tunnel+" + class
@@ -808,6 +931,20 @@ func genTCP(t *rapid.T) *TCPCase {
 	c.ErrKindA = rapid.SampledFrom(errKinds).Draw(t, "errKindA")
 	c.ErrKindB = rapid.SampledFrom(errKinds).Draw(t, "errKindB")
 	c.ViaTunnel = rapid.IntRange(0, 3).Draw(t, "viaTunnel") == 0
+	if !c.ViaTunnel && rapid.IntRange(0, 4).Draw(t, "limited") == 0 {
+		// the bucket starts full with 2 x limit tokens: a run that moves no more than that in
+		// total never waits, so these cases cost no wall-clock time
+		total := int64(sent[0] + sent[1])
+		var fit []int64
+		for _, l := range []int64{4096, 8000, 16383, 16384, 20000, 32767, 32768, 65536, 1 << 20} {
+			if 2*l >= total {
+				fit = append(fit, l)
+			}
+		}
+		if len(fit) > 0 {
+			c.Limit = rapid.SampledFrom(fit).Draw(t, "limit")
+		}
+	}
 	c.ReactiveA = rapid.Bool().Draw(t, "reactiveA")
 	c.ReactiveB = rapid.Bool().Draw(t, "reactiveB")
 	if rapid.IntRange(0, 2).Draw(t, "preStart") == 0 {
@@ -900,6 +1037,19 @@ func TestTCPScripted(t *testing.T) {
 			c2.Steps = []TCPStep{{Op: "sendB", N: n}, {Op: "sendA", N: 2000}, {Op: "sendhcB", N: n}, {Op: "sendhcA", N: 9}}
 			check(t, Case{TCP: &c2})
 		}
+	}
+	// bandwidth-limited relay (target side): one Read fills the 32 KiB copy buffer
+	for _, lim := range []int64{12000, 16384, 20000, 32767, 32768, 65536} {
+		for _, op := range []string{"sendA", "sendB"} {
+			c := base()
+			c.Limit, c.Pre = lim, 1
+			c.Steps = []TCPStep{{Op: op, N: 32768}, {Op: "hcB"}, {Op: "hcA"}}
+			check(t, Case{TCP: &c})
+		}
+		c := base() // request / half-close / response under a limit
+		c.Limit = lim
+		c.Steps = []TCPStep{{Op: "sendA", N: 700}, {Op: "hcA"}, {Op: "sendB", N: 4000}, {Op: "hcB"}}
+		check(t, Case{TCP: &c})
 	}
 	// request sent, requester idle (no half-close), the response direction dies at a point
 	for _, kind := range errKinds {
